@@ -21,6 +21,10 @@ def corpus():
         S.Case("corpus-big-first", {"mfs": 2 ** 31, "cache": 256, "conc": 1, "frag": (1, 1), "dead": 10 ** 9, "small": 0, "sync": False},
                [("set", b"a", b"1"), ("reopen",), ("set", b"big", b"B" * 20000), ("set", b"b", b"2"), ("set", b"c", b"3")]),
         # value in file i, tombstone in a later file j, both merged; an unlink fails (seed C20-B shape)
+        # an unlink fails in a first merge; a second merge and a restart follow (the file that could not be removed must be taken again,
+        # otherwise the tombstones shadowing it are merged away: fixed defect e043e9c)
+        S.Case("corpus-unlink-then-merge", {"mfs": 0, "cache": 0, "conc": 1, "frag": (0, 1), "dead": 0, "small": 0, "sync": False},
+               [("set", b"k", b"v"), ("del", b"other"), ("del", b"k"), ("merge",), ("merge",), ("set", b"z", b"w"), ("merge",)]),
         S.Case("corpus-unlink", {"mfs": 0, "cache": 256, "conc": 1, "frag": (0, 1), "dead": 0, "small": 10 ** 9, "sync": False},
                [("set", b"k", b"v"), ("del", b"k"), ("set", b"x", b"y"), ("merge",), ("set", b"z", b"w")]),
     ]
@@ -144,7 +148,7 @@ def main(tier, seed):
     cases = []
     for b in bases:
         if b.name not in died:
-            cases += fault_cases(b, rng, 1000 if tier == "thorough" else 18)
+            cases += fault_cases(b, rng, 1000 if (tier == "thorough" or b.name.startswith("corpus")) else 18)
     died2 = T.run_recorded(cases)
     kinds, nfault = {}, 0
     for c in cases:
